@@ -412,7 +412,7 @@ func checkVerbatim(w *World, r *Report, tokenT types.Type, textKind types.Object
 	ast.Inspect(fd.Body, func(n ast.Node) bool {
 		if c, ok := n.(*ast.CallExpr); ok {
 			if f := w.callee(c); f != nil && f.Pkg() != nil && f.Pkg().Path() == twigPath {
-				if d := w.decls[f]; d != nil && w.parserSide(d) {
+				if d := w.decls[f]; d != nil && w.parserSide(d) && yieldsNodes(w, f) {
 					parserCalls = append(parserCalls, f.Name())
 				}
 			}
@@ -1320,4 +1320,41 @@ func checkStagedOutputDelivered(w *World, r *Report) {
 		}
 	}
 	r.Counts["functions staging output in a buffer of their own"] = n
+}
+
+// yieldsNodes: can a call of f hand its caller a parsed node?  True when a result is a Node, a
+// slice or map of Nodes, or a node struct; position predicates and token helpers (bool, int,
+// string, Token, error results) cannot.
+func yieldsNodes(w *World, f *types.Func) bool {
+	sig, ok := f.Type().(*types.Signature)
+	if !ok {
+		return true
+	}
+	var nodeish func(t types.Type, d int) bool
+	nodeish = func(t types.Type, d int) bool {
+		if d > 3 {
+			return true
+		}
+		if isNamed(t, twigPath, "Node") {
+			return true
+		}
+		if n, ok := deref(t).(*types.Named); ok && n.Obj().Pkg() != nil && n.Obj().Pkg().Path() == twigPath && w.isNodeStruct(n.Obj().Name()) {
+			return true
+		}
+		switch u := t.Underlying().(type) {
+		case *types.Slice:
+			return nodeish(u.Elem(), d+1)
+		case *types.Map:
+			return nodeish(u.Elem(), d+1)
+		case *types.Interface:
+			return u.NumMethods() == 0 // interface{} may carry anything
+		}
+		return false
+	}
+	for i := 0; i < sig.Results().Len(); i++ {
+		if nodeish(sig.Results().At(i).Type(), 0) {
+			return true
+		}
+	}
+	return false
 }
